@@ -43,7 +43,7 @@ PROBES = ["q_mut_q", "q_after_append", "q_after_remove", "q_after_modify_element
           "nonrange_index", "block_query_hit", "alias_retired", "nan_cell", "dup_value_hit", "new_column_added",
           "empty_table", "from_query_holder", "slice_holder", "copy_holder", "viewer_built", "viewer_child_block", "viewer_append", "viewer_append_to_empty", "viewer_from_iterator",
           "viewer_query", "viewer_query_on_child", "big_table", "bool_column_query", "bool_column_query_for_false",
-          "indexed_query_on_10k_rows", "indexed_query_on_10k_rows_labels_not_positions", "cell_write_added_column", "huge_int_query", "loaded_from_file", "two_tables_from_one_file"]
+          "indexed_query_on_10k_rows", "indexed_query_on_10k_rows_labels_not_positions", "cell_write_added_column", "huge_int_query", "loaded_from_file", "two_tables_from_one_file", "asked_for_empty_string"]
 # the same check again, smaller, in interpreters started with assertions stripped (python -O / PYTHONOPTIMIZE=1)
 ENV_VARIANTS = [{"name": "python-O", "env": {"PYTHONOPTIMIZE": "1"}, "runs": {'quick': 2500, 'thorough': 25000}}]
 TIERS = {
@@ -54,7 +54,8 @@ MIN_SECONDS = 20.0
 
 HUGE_VALS = [2 ** 100 + 7, 2 ** 64, -(2 ** 70) - 1]
 INT_VALS = [0, 1, 2, 3]      # 0 on purpose: a numpy zero is falsy
-STR_VALS = {"operation": ["x", "y", "block_start", "block_end"], "name": ["a", "b", "\u00e4\u540d", "a"]}
+# among the names: texts that look like missing-value markers, and (rarely) the empty string
+STR_VALS = {"operation": ["x", "y", "block_start", "block_end"], "name": ["a", "b", "\u00e4\u540d", "a", "None", "nan", "a", "b", ""]}
 BASE_COLS = ["stmt_id", "operation", "name", "v"]
 KIND = {"stmt_id": "int", "operation": "str", "name": "str", "v": "int", "name2": "str", "v2": "int", "s_op": "str",
         "n1": "int", "s1": "str", "flag": "bool"}
@@ -100,8 +101,12 @@ class T:
     def matrix(self):
         return [[r.get(c) for c in self.cols] for _, r in self.rows]
 
-    def positions(self, col, v):
+    def positions(self, col, v, scan=False):
+        """scan=False: the equality-indexed queries, for which lian defines the empty string as a missing value (util.isna) -
+        asking for it finds nothing; scan=True: condition-based queries and removals, which compare cell by cell"""
         if v is None or col not in self.cols:
+            return []
+        if v == "" and not scan:
             return []
         return [i for i, (_, r) in enumerate(self.rows) if r.get(col) is not None and r.get(col) == v]
 
@@ -705,7 +710,7 @@ def execute(trace):
                 elif kind == "from_query":
                     if op["col"] not in m.cols:
                         continue
-                    pos = m.positions(op["col"], op["v"])
+                    pos = m.positions(op["col"], op["v"], scan=True)
                     dm = sut(lambda: src["dm"].slow_query(src["dm"].access_column(op["col"]) == op["v"],
                                                          reset_index=op["reset"]))
                     rows = [m.rows[i] for i in pos]
@@ -1177,7 +1182,9 @@ def run_query(h, op, sut, hit, states, trans):
         obs = [{str(c): cell(v) for c, v in d.items()} for d in sut(lambda: dm.convert_to_dict_list())]
     elif kind in ("qidx", "qfirst", "bundle_search", "slow_query_first", "slow_query"):
         v = op["v"]
-        pos = m.positions(col, v)
+        pos = m.positions(col, v, scan=kind in ("slow_query_first", "slow_query"))
+        if v == "":
+            hit("asked_for_empty_string")
         if len(pos) > 1:
             hit("dup_value_hit")
         if kind == "qidx":
